@@ -45,6 +45,7 @@ package scipipe
 
 //@ func (*FileIP).Path(ip) (res)
 //@   props C01 C13
+//@   deterministic structural
 //@   ensures def: res == ip.path
 
 //@ func (*FileIP).FifoPath(ip) (res)
@@ -114,6 +115,7 @@ package scipipe
 //@   ensures ok: err == nil ==> effExecOK == setAdd(old(effExecOK), cmdArg(c, 1))
 //@   ensures failed: err != nil ==> effExecOK == old(effExecOK)
 //@ extern path/filepath.Dir(path) (res)
+//@   deterministic by-contract pure library function
 //@   ensures def: res == dirOf(path)
 //@ extern path/filepath.Join(elem) (res)
 //@   ensures two: len(elem) == 2 ==> res == pathJoin2(elem[0], elem[1])
@@ -195,7 +197,11 @@ package scipipe
 
 //@ func (*Task).TempDir(t) (res)
 //@   props C14
+//@   deterministic structural
 //@   assumes stable: res == tmpDirOf(t)
+//@   ensures no-slash: !contains(res, "/")
+//@   ensures prefixed: hasPrefix(res, "_scipipe_tmp") && len(res) > 12
+//@   ensures at-most-255-bytes: len(res) <= 255
 
 //@ func (*Task).tempDirsExist(t) (res)
 //@   props C03
@@ -470,3 +476,103 @@ package scipipe
 //@   modifies effCreated, effMkdir, fsEpoch
 //@   ensures creates-temp-path: effCreated == setAdd(old(effCreated), tempPathOf(ip.path))
 //@   ensures not-final: forall p string :: effCreated[p] && !old(effCreated)[p] ==> p != ip.path
+
+// ---------------------------------------------------------------------------
+// C14: temp directory name (task.go TempDir, common.go splitAllPaths, ip.go sanitizePathFragment, process.go sorted*Keys)
+// ---------------------------------------------------------------------------
+
+//@ ghost func regexLit(r ref) string
+//@ ghost func reReplaceAll(pat string, src string, repl string) string
+//@ ghost func toLower(s string) string
+//@ ghost func sha1Of(data string) string
+//@ ghost func hexOf(b string) string
+//@ ghost func baseOf(p string) string
+//@ axiom sanitize.charset: forall s string :: fullMatch(reReplaceAll("[^a-z0-9_\\-\\.]+", s, "_"), "[a-z0-9_.\\-]*")
+//@ axiom sanitize.noslash: forall s string :: !contains(reReplaceAll("[^a-z0-9_\\-\\.]+", s, "_"), "/")
+//@ axiom hex.noslash: forall b string :: !contains(hexOf(b), "/")
+//@ axiom hex.len: forall b string :: len(hexOf(b)) == 2 * len(b)
+//@ axiom hex.charset: forall b string :: fullMatch(hexOf(b), "[0-9a-f]*")
+//@ axiom sha1.len: forall d string :: len(sha1Of(d)) == 20
+
+//@ extern regexp.MustCompile(str) (res)
+//@   deterministic by-contract pure function of the pattern
+//@   ensures lit: res != nil && regexLit(res) == str
+//@ extern (*regexp.Regexp).ReplaceAllString(re, src, repl) (res)
+//@   deterministic by-contract pure library function
+//@   ensures def: res == reReplaceAll(regexLit(re), src, repl)
+//@ extern strings.ToLower(s) (res)
+//@   deterministic by-contract pure library function
+//@   ensures def: res == toLower(s)
+//@ extern crypto/sha1.Sum(data) (res)
+//@   deterministic by-contract pure library function
+//@   ensures def: res == sha1Of(data)
+//@ extern encoding/hex.EncodeToString(src) (res)
+//@   deterministic by-contract pure library function
+//@   ensures def: res == hexOf(src)
+//@ extern strings.Join(elems, sep) (res)
+//@   deterministic by-contract pure library function
+//@ extern path/filepath.Base(path) (res)
+//@   deterministic by-contract pure library function
+//@   ensures def: res == baseOf(path)
+//@ extern sort.Strings(x)
+//@   deterministic by-contract pure library function (sorts in place)
+//@   mutates x
+//@   ensures perm-len: len(x) == len(x0)
+//@   ensures perm-range: forall j int :: 0 <= j && j < len(x) ==> 0 <= sortPermS(x, j) && sortPermS(x, j) < len(x0) && x[j] == x0[sortPermS(x, j)]
+//@   ensures perm-injective: forall j1 int, j2 int :: 0 <= j1 && j1 < j2 && j2 < len(x) ==> sortPermS(x, j1) != sortPermS(x, j2)
+//@   ensures perm-onto: forall i int :: 0 <= i && i < len(x0) ==> 0 <= sortInvS(x, i) && sortInvS(x, i) < len(x) && x[sortInvS(x, i)] == x0[i]
+//@   ensures sorted: forall i int, j int :: 0 <= i && i < j && j < len(x) ==> x[i] <= x[j]
+//@ ghost func sortPermS(s seq[string], j int) int
+//@ ghost func sortInvS(s seq[string], i int) int
+
+//@ func sanitizePathFragment(s) (sanitized)
+//@   props C14
+//@   deterministic structural
+//@   ensures def: sanitized == reReplaceAll("[^a-z0-9_\\-\\.]+", toLower(s), "_")
+//@   ensures charset: fullMatch(sanitized, "[a-z0-9_.\\-]*")
+
+//@ define sortedKeysOf(keys seq[string], d set[string]) bool = (forall i int :: 0 <= i && i < len(keys) ==> d[keys[i]]) && (forall k string :: d[k] ==> exists i int :: 0 <= i && i < len(keys) && keys[i] == k) && (forall i int, j int :: 0 <= i && i < j && j < len(keys) ==> keys[i] < keys[j])
+
+//@ func sortedStringMapKeys(kv) (keys)
+//@   props C14 C15
+//@   deterministic by-contract the strictly sorted list of the keys of a map is unique (postcondition sorted-keys)
+//@   ensures sorted-keys: sortedKeysOf(keys, dom(kv))
+//@   loop 0 invariant elems: forall i int :: 0 <= i && i < len(keys) ==> $visited[keys[i]]
+//@   loop 0 invariant cover: forall k string :: $visited[k] ==> exists i int :: 0 <= i && i < len(keys) && keys[i] == k
+//@   loop 0 invariant vis: forall k string :: $visited[k] ==> k in kv
+//@   loop 0 invariant nodup: forall i int, j int :: 0 <= i && i < j && j < len(keys) ==> keys[i] != keys[j]
+
+//@ func sortedFileIPMapKeys(kv) (keys)
+//@   props C14 C15
+//@   deterministic by-contract the strictly sorted list of the keys of a map is unique (postcondition sorted-keys)
+//@   ensures sorted-keys: sortedKeysOf(keys, dom(kv))
+//@   loop 0 invariant elems: forall i int :: 0 <= i && i < len(keys) ==> $visited[keys[i]]
+//@   loop 0 invariant cover: forall k string :: $visited[k] ==> exists i int :: 0 <= i && i < len(keys) && keys[i] == k
+//@   loop 0 invariant vis: forall k string :: $visited[k] ==> k in kv
+//@   loop 0 invariant nodup: forall i int, j int :: 0 <= i && i < j && j < len(keys) ==> keys[i] != keys[j]
+
+//@ func sortedFileIPSliceMapKeys(kv) (keys)
+//@   props C14
+//@   deterministic by-contract the strictly sorted list of the keys of a map is unique (postcondition sorted-keys)
+//@   ensures sorted-keys: sortedKeysOf(keys, dom(kv))
+//@   loop 0 invariant elems: forall i int :: 0 <= i && i < len(keys) ==> $visited[keys[i]]
+//@   loop 0 invariant cover: forall k string :: $visited[k] ==> exists i int :: 0 <= i && i < len(keys) && keys[i] == k
+//@   loop 0 invariant vis: forall k string :: $visited[k] ==> k in kv
+//@   loop 0 invariant nodup: forall i int, j int :: 0 <= i && i < j && j < len(keys) ==> keys[i] != keys[j]
+
+//@ func splitAllPaths(path) (res)
+//@   props C14
+//@   deterministic structural
+
+//@ func (*Task).InIP(t, portName) (res)
+//@   props C09 C14 C15
+//@   deterministic structural
+//@   ensures returns-only-if-present: res != nil && res == t.InIPs[portName]
+//@ func (*Task).Param(t, portName) (res)
+//@   props C09 C14 C15
+//@   deterministic structural
+//@   ensures returns-only-if-present: portName in t.Params && res == t.Params[portName]
+//@ func (*Task).Tag(t, tagName) (res)
+//@   props C09 C14 C15
+//@   deterministic structural
+//@   ensures returns-only-if-present: tagName in t.Tags && res == t.Tags[tagName]
